@@ -21,8 +21,7 @@
      [OutOfFuel] when it runs out; C17 proves that never happens, i.e. the number
      of iterations is linear in the length of the input;
    * std's Ipv4Addr/Ipv6Addr FromStr and Display are a record of four functions
-     ([ipcodec]); the instance comes from Ip/IpModel.v (ZoneFile/ZfIpStub.v until
-     that exists).
+     ([ipcodec]); the driver's instance comes from Ip/IpModel.v (ZoneFile/ZfInstance.v).
    * Error values carry no payload: only the variant is modelled. *)
 From RV Require Import Base.Prelude Name.NameModel Wire.WireTypes Zone.ZoneModel.
 
